@@ -140,12 +140,37 @@ class TermBuilder:
         if d == "digest::Digest::finalize":
             parts = self.hasher_updates(c.args[0], depth)
             return ("hash", algo_of(c.self_ty), parts)
+        if d == "std::boxed::box_assume_init_into_vec_unsafe":
+            elems = self.vec_macro_elements(c)
+            if elems is not None:
+                return ("vec", elems)
         if re.search(r"Vec::<.*>::(with_capacity|new)$", c.full) or d in ("std::vec::Vec::<T>::new", "std::vec::Vec::<T>::with_capacity"):
             if c.dest and not c.dest["p"]:
                 ws = self.writers(c.dest["l"])
                 return ("buf", [self.writer_term(w, i, depth) for (w, i) in ws])
             return ("buf", [])
         return ("call", d if not c.impl_self else c.full.split("::<")[0] if False else d, [self.term(a, depth + 1) for a in c.args])
+
+    def vec_macro_elements(self, c):
+        """`vec![a, b]` lowers to Box::new_uninit + a store of `[a, b]` through the raw pointer +
+        box_assume_init_into_vec_unsafe: recover the element terms."""
+        b = self.body
+        boxes = [lf["call"] for lf in b.origins(c.args[0], passthrough={}) if lf["kind"] == "call" and "new_uninit" in lf["call"].decl]
+        if len(boxes) != 1 or not boxes[0].dest or boxes[0].dest["p"]:
+            return None
+        bl = boxes[0].dest["l"]
+        ptrs = set()
+        for (bb, idx, role, payload, pl) in b.uses(bl):
+            if role == "cast" and payload.get("k") == "assign" and not payload["lhs"]["p"]:
+                ptrs.add(payload["lhs"]["l"])
+        elems = None
+        for p in ptrs:
+            for (bb, idx, kind, payload, lhs_proj) in b.defs(p):
+                if kind == "assign" and lhs_proj and proj_key(lhs_proj[0]) == "*":
+                    rv = payload["rv"]
+                    if rv["r"] == "agg" and rv["ak"] == "array":
+                        elems = [self.term(o, 1) for o in rv["ops"]]
+        return elems
 
     def writer_term(self, w, argi, depth):
         if re.search(r"headers::header::Header::<.*>::write$", w.decl) or w.decl.endswith("::Header::<T>::write"):
@@ -187,6 +212,8 @@ def render(t):
         return "buf[%s]" % ", ".join(render(x) for x in t[1])
     if k == "ser":
         return "ser(%s)" % render(t[1])
+    if k == "vec":
+        return "vec![%s]" % ", ".join(render(x) for x in t[1])
     if k == "call":
         return "%s(%s)" % (t[1].rsplit("::", 1)[-1] if False else t[1], ", ".join(render(x) for x in t[2]))
     if k == "proj":
